@@ -18,7 +18,11 @@ PROPERTY = "C20"
 TOKENS = ["&", "<", ">", '"', "'", "a", ";", "#", " ", "é", "&amp;", "&lt;", "&#38;", "&quot;",
           "]]>", "x26",
           # the edges of the XML 1.0 character ranges: #x20-#xD7FF, #xE000-#xFFFD, #x10000-#x10FFFF
-          "\ud7ff", "\ue000", "\ufffd", "\U00010000", "\U0001F58A", "\U0010FFFF", "\x7f"]
+          "\ud7ff", "\ue000", "\ufffd", "\U00010000", "\U0001F58A", "\U0010FFFF", "\x7f",
+          # line breaks and tabs: multi-line titles and descriptions.  A conforming parser itself
+          # normalises these (CR LF and CR -> LF; in attribute values each becomes a blank), so the
+          # read-back is compared with the *normalised* original - everything else stays exact
+          "\n", "\t", "\r"]
 ENTITY = re.compile(r"&(?!(amp|lt|gt|quot|apos);)")
 HMS = re.compile(r"^(\d+):(\d\d):(\d\d) \(Hours, minutes, seconds\)$")
 MS = re.compile(r"^(\d+):(\d\d) \(Minutes, seconds\)$")
@@ -51,7 +55,9 @@ def check_escape(text):
     except etree.XMLSyntaxError as exc:
         return [("parse", f"xml_escape({text!r}) = {esc!r} does not parse: {exc}")]
     back = (root.text or "", root.get("a"), root.get("b"))
-    if back != (text, text, text):
+    content = text.replace("\r\n", "\n").replace("\r", "\n")          # XML 1.0 section 2.11
+    attr = content.replace("\n", " ").replace("\t", " ")               # XML 1.0 section 3.3.3
+    if back != (content, attr, attr):
         out.append(("roundtrip", f"xml_escape({text!r}) = {esc!r} is read back as content "
                     f"{back[0]!r}, attribute {back[1]!r} / {back[2]!r}"))
     return out
@@ -169,8 +175,8 @@ def _long_chunk(texts):
     return part
 
 
-# every XML 1.0 character from #x20 up (tab, LF and CR are excluded: a conforming parser itself
-# rewrites them in attribute values, so no escaper that leaves them literal can round-trip them)
+# every XML 1.0 character from #x20 up (tab, LF and CR are in the token alphabet instead, with
+# the read-back a conforming parser must deliver for them)
 LEGAL_RANGES = ((0x20, 0xD7FF), (0xE000, 0xFFFD), (0x10000, 0x10FFFF))
 
 
@@ -299,8 +305,10 @@ def run(ctx):
         "duration_cases": cnt.get("duration_cases", 0),
         "exhaustive": True,
     }
-    assumptions = ["TAB/CR/LF inside attribute values are outside the quantifier (XML attribute "
-                   "value normalisation changes them whatever the escaping does)",
+    assumptions = ["TAB/CR/LF are read back as a conforming parser must deliver them: CR LF and CR "
+                   "become LF in content, each becomes a blank in attribute values (XML 1.0 "
+                   "2.11, 3.3.3) - no escaper that leaves them literal can do better; everything "
+                   "else must be read back exactly",
                    "on an exact .5 tie either neighbouring second is accepted"]
     return {"part": part, "coverage": coverage, "assumptions": assumptions}
 
